@@ -37,7 +37,7 @@ def run_check(prop, tier, seed):
             if t.get('skip'):
                 continue
             r = vf.run_mc(mc['module'], scratch, cfg=t.get('cfg', mc.get('cfg')), env=t.get('env'),
-                          timeout=t.get('timeout', 3600))
+                          timeout=t.get('timeout', 3600), expect_violation=mc.get('expect_violation'))
             cov['states'] += r['distinct']
             cov['transitions'] += r['generated']
             cov['mc_runs'].append({'module': mc['module'], 'cfg': t.get('cfg', mc.get('cfg', mc['module'])),
@@ -50,8 +50,12 @@ def run_check(prop, tier, seed):
         for drv in plan.get('drivers', []):
             t = drv.get('tiers', {}).get(tier, {})
             h = harness_race if drv.get('race') else harness
+            denv = None
+            if drv.get('race'):
+                # the race detector reports into files; a report is real-code evidence (see the race leg)
+                denv = dict(os.environ, GORACE='log_path=%s halt_on_error=0 exitcode=0' % os.path.join(scratch, 'race-report'))
             sums = vf.run_driver(h, drv['name'], tier, seed, tdir, shards=t.get('shards', drv.get('shards', 8)),
-                                 per=t.get('per', drv.get('per', 60000)))
+                                 per=t.get('per', drv.get('per', 60000)), env=denv)
             for s in sums:
                 for op, n in s['ops'].items():
                     cov['driver_ops'][op] = cov['driver_ops'].get(op, 0) + n
@@ -72,6 +76,8 @@ def run_check(prop, tier, seed):
         # ---- extra legs (graphs, MBT) are plug-ins: each returns (coverage-part, mismatches)
         extra_bads = []
         for leg in plan.get('legs', []):
+            if leg == 'apalache_masks':
+                leg = vf.apalache_masks_leg
             part, bads = leg(dict(harness=harness, scratch=scratch, tier=tier, seed=seed, prop=prop))
             cov['states'] += part.get('states', 0)
             cov['transitions'] += part.get('transitions', 0)
@@ -100,6 +106,8 @@ def run_check(prop, tier, seed):
                     raise vf.HarnessError('graph disagreement at %s is not reproduced by the trace specification' % note)
                 for c in codes:
                     pending.append((c, evs, new[-1], note))
+            elif code == 'C19.race':
+                violations.append((code, evs, note))      # a detector report is not re-executable
             else:
                 pending.append((code, evs, evs[-1], note))
 
